@@ -292,7 +292,7 @@ def scales(spec, state):
     return {i: {var: [x[1] for x in vals] for var, vals in vs.items()} for i, vs in out.items()}
 
 
-def compare_pair(a, b, sc, rtol=1e-9, atol=1e-12):
+def compare_pair(a, b, sc, rtol=1e-9, atol=1e-12, fallback=False):
     """Entry-wise comparison of two next-state dicts {id: {var: array}} with term scales sc.
     Returns (mismatches, all_finite): mismatches = list of (id, var, k, a, b, scale|None, why)."""
     bad = []
@@ -321,7 +321,9 @@ def compare_pair(a, b, sc, rtol=1e-9, atol=1e-12):
                     continue
                 if not math.isfinite(s_):
                     finite = False
-                    continue
+                    if not fallback:
+                        continue
+                    s_ = abs(x) + abs(y)  # the reference has no finite scale here (model's own 0/0): value-relative
                 if abs(x - y) > rtol * s_ + atol:
                     bad.append((i, var, k, x, y, s_, "value"))
     for i in a:
